@@ -6,7 +6,7 @@
 From Coq Require Import ZArith List Bool.
 From DV Require Import Model.PyPrims Model.C09AlphaTypes Model.C09Alphabets Model.C09Model Model.C09Spec
   Model.C09Nexus Model.C09Convert Proofs.C09Text Proofs.C09Fasta Proofs.C09PhylipInst Proofs.C09NexusProofs
-  Proofs.C09Main.
+  Proofs.C09Main Proofs.C09Examples.
 Import ListNotations.
 Open Scope Z_scope.
 
